@@ -168,30 +168,62 @@ class SubstanceGet(Harness):
             out += [z3.And(iv > 0, iv < 20), z3.IsInt(iv), z3.And(ov > 0, ov < 20), z3.IsInt(ov)]
         return out
 
+    @staticmethod
+    def _dims(inputs, tag):
+        return {u: int(inputs['%s_exp_%s' % (tag, u)]) for u in U if inputs.get('%s_has_%s' % (tag, u))}
+
     def native(self, inputs, label):
-        # the same three kinds of lookup on a real substance (water: density relates volume -> mass)
-        a = Fraction(inputs['a'])
-        k = Fraction(inputs.get('k', 1)) if self.scaled else Fraction(1)
-        q = inputs['q']
-        amt = a * k
-        if q.startswith('p'):
-            return [{'mode': 'query', 'text': 'density of (%s water)' % frac_text(amt)}, {'mode': 'query', 'text': 'density of water'}]
-        if q.startswith('out'):
-            return [{'mode': 'query', 'text': 'mass of (%s m^3 water)' % frac_text(amt)}, {'mode': 'query', 'text': 'mass of (1 m^3 water)'}]
-        return [{'mode': 'query', 'text': 'volume of (%s kg water)' % frac_text(amt)}, {'mode': 'query', 'text': 'volume of (1 kg water)'}]
+        # the substance the solver's model describes, built natively (Substance / Property have public fields)
+        def num(v, tag):
+            f = Fraction(inputs[v])
+            return {'value': '%d/%d' % (f.numerator, f.denominator), 'unit': self._dims(inputs, tag)}
+        props = {'p%d' % i: {'input': num('in%d' % i, 'di%d' % i), 'input_name': 'in%d' % i,
+                             'output': num('out%d' % i, 'do%d' % i), 'output_name': 'out%d' % i} for i in (1, 2)}
+        req = {'mode': 'substance_get', 'amount': num('a', 'da'), 'props': props, 'q': inputs['q']}
+        if self.scaled:
+            k = Fraction(inputs.get('k', 1))
+            req['k'] = '%d/%d' % (k.numerator, k.denominator)
+        return [req]
 
     def judge(self, inputs, label, obs):
-        a = Fraction(inputs['a']) * (Fraction(inputs.get('k', 1)) if self.scaled else 1)
-        q, one = obs
-        if q.get('outcome') == 'panic' or q.get('render_panic'):
-            return True, 'panic %s' % (q.get('panic') or q.get('render_panic'))
-        got, unit = obs_number_json(q), obs_number_json(one)
-        if unit is None:
-            return False, 'reference query failed: %s' % one.get('display')
-        want = a * unit[0]
-        if got is None or got[0] != want:
-            return True, '%s gave %s (%s), expected %s' % (inputs['q'], got, q.get('display'), want)
-        return 'kernel-only' if 'unit' in label else False, 'agrees on water (the model substance is symbolic)'
+        o = obs[0]
+        if o.get('outcome') != 'ok':
+            return True, 'Substance::get: %s %s' % (o.get('outcome'), o.get('panic', ''))
+        if 'mul_error' in o:
+            return True, 'substance * number failed: %s' % o['mul_error']
+        q = inputs['q']
+        amt = Fraction(inputs['a']) * (Fraction(inputs.get('k', 1)) if self.scaled else 1)
+        dA = self._dims(inputs, 'da')
+        got_amt = Fraction(o['amount']['value'])
+        if got_amt != amt or {k: int(v) for k, v in o['amount']['unit'].items()} != dA:
+            return True, 'amount of the (scaled) substance is %s, expected %s %s' % (o['amount'], amt, dA)
+        i = {'p1': 1, 'out1': 1, 'in1': 1, 'p2': 2, 'out2': 2, 'in2': 2}.get(q)
+        if i is None:
+            return (o['ok'], 'unknown property `%s` -> %s' % (q, o))
+        iv, ov = Fraction(inputs['in%d' % i]), Fraction(inputs['out%d' % i])
+        dI, dO = self._dims(inputs, 'di%d' % i), self._dims(inputs, 'do%d' % i)
+        if q.startswith('p'):
+            want = None
+            if not dA:
+                u = {k: dA.get(k, 0) + dO.get(k, 0) - dI.get(k, 0) for k in U}
+                want = (amt * ov / iv, {k: e for k, e in u.items() if e})
+            kind = None
+        elif q.startswith('out'):
+            want = (ov * amt / iv, dO) if dA and dA == dI else None
+            kind = 'conformance' if dA and dA != dI else None
+        else:
+            want = (iv * amt / ov, dI) if dA and dA == dO else None
+            kind = 'conformance' if dA and dA != dO else None
+        if want is None:
+            if o['ok']:
+                return True, '`%s` of %s %s stuff is answered (%s) but must be refused' % (q, amt, dA, o['number'])
+            if kind and o.get('kind') != kind:
+                return True, '`%s` refused with a %s error, expected a conformance error' % (q, o.get('kind'))
+            return False, 'refused as specified'
+        if not o['ok']:
+            return True, '`%s` of %s %s stuff is refused (%s), expected %s %s' % (q, amt, dA, o.get('error') or o.get('kind'), want[0], want[1])
+        got = (Fraction(o['number']['value']), {k: int(v) for k, v in o['number']['unit'].items()})
+        return (got != want), '`%s` of %s %s stuff = %s %s, expected %s %s' % (q, amt, dA, got[0], got[1], want[0], want[1])
 
 
 class Formula(Harness):
